@@ -1,11 +1,13 @@
 """Native paired-run contract for C10: the real Sampler is run twice under the same seed with log-likelihoods L and L + c;
 schedule, particles, ESS sequence must agree (to rounding) and every recorded log-evidence at temperature beta must be
 shifted by beta*c (the final one by c).  Bounded: small problems, the option lattice and shifts listed below."""
-import json, sys, warnings, itertools, os, tempfile
+import json, sys, warnings, itertools, os, tempfile, shutil, atexit
 import numpy as np
 import tempest
 
 warnings.simplefilter("ignore")
+BASE = tempfile.mkdtemp(prefix="c10_")
+atexit.register(shutil.rmtree, BASE, True)
 
 
 def prior(u):
@@ -29,7 +31,7 @@ def run(c, seed, opts, n_total):
     vec = o.pop("vectorize", False)
     npart = o.pop("n_particles", 24)
     s = tempest.Sampler(prior, (make_like_vec if vec else make_like)(c), n_dim=2, n_particles=npart, vectorize=vec,
-                        random_state=seed, output_dir=tempfile.mkdtemp(prefix="c10_"), **o)
+                        random_state=seed, output_dir=tempfile.mkdtemp(prefix="out_", dir=BASE), **o)
     s.run(n_total=n_total, progress=False)
     st = s.state
     return dict(beta=np.array(st.get_history("beta")), logz=np.array(st.get_history("logz")), ess=np.array(st.get_history("ess")),
@@ -70,7 +72,7 @@ def main():
                dict(volume_variation=0.03, n_particles=64), dict(volume_variation=0.1, n_particles=48, sample="rwm")]
     shifts = [3.0, -250.0, 1000.0, -1000.0]
     cwd = os.getcwd()
-    os.chdir(tempfile.mkdtemp(prefix="c10_cwd_"))
+    os.chdir(tempfile.mkdtemp(prefix="cwd_", dir=BASE))
     try:
         for opts, c in itertools.product(lattice, shifts):
             tried += 1
